@@ -93,7 +93,12 @@ RULE = ('small: 0-6 objects (nested dicts/lists, 64-bit ints, floats incl. -0.0/
         'with >= 2 objects whose text contains a non-ASCII character or an escaped newline, or a big case whose '
         'file spans >= 2 read chunks or where one read chunk gave > 1 MiB of text, or a doc case whose file on disk '
         'is larger than one 64 KiB read chunk; distinct = distinct case JSON')
-TRUSTED = ['NOT modelled: orjson (premises loads(dumps o) = o, dumps o non-empty without raw newline), CPython incremental '
+TRUSTED = ['orjson: MODELLED on the float-free subset of JSON (Container/Json.v: json_print / json_parse), with its premises '
+           '(loads(dumps o) = o, dumps o non-empty, no raw newline, no control byte, valid UTF-8) PROVED for the model and the '
+           'model compared with the real orjson on every run (the text rxsci json.dump emits for generated values = json_print; '
+           'json_parse = orjson.loads on noisy and mutated texts, rejections included); outside the model: floats, ints '
+           'beyond orjson range, orjson nesting limits (254 / 1024) - for objects with floats the premises stay hypotheses',
+           'NOT modelled: CPython incremental '
            'text codecs (premise: decode of any re-chunking of encode = same text; C17), zlib/zstandard (premise: '
            'decompress of any re-chunking of compress = same bytes; C16). They are hypotheses of the composition theorem, '
            'tied to the libraries by this differential test only',
@@ -557,6 +562,10 @@ def generate(rng, tier):
     cases += gen_docs(random.Random(rng.randrange(2 ** 62)), tier)
     # scale family (after everything else, from its own stream derived from rng)
     cases += gen_scale(random.Random(rng.randrange(2 ** 62)), tier)
+    # the Coq model of orjson on the float-free subset (Container/Json.v) against the real library, through rxsci's
+    # own json.dump / json.load: values -> emitted text = json_print, parsed back; noisy and mutated texts -> loads
+    for _ in range({'quick': 3, 'thorough': 40, 'search': 1}[tier]):
+        cases.append({'kind': 'jmodel', 'seed': rng.randrange(10 ** 9), 'n': 120, 'm': 160})
     return cases
 
 
@@ -652,7 +661,33 @@ class ShortReader(io.RawIOBase):
         return len(data)
 
 
+def run_jmodel(case):
+    import random
+    import rx
+    import rxsci.container.json as rjson
+    from harness import jsonmirror as jm
+    rng = random.Random(case['seed'])
+    fixed = [None, True, False, 0, [], {}, "", [[]], {"": {}}, [[], {}, [[]]], {"a": [], "": ""}]
+    values = [fixed[i] if i < len(fixed) else jm.rand_value(rng) for i in range(case['n'])]
+    texts, end = [], []
+    rx.from_(values).pipe(rjson.dump()).subscribe(on_next=texts.append, on_error=lambda e: end.append('error:' + type(e).__name__),
+                                                  on_completed=lambda: end.append('completed'))
+    ok_shape = len(texts) == len(values) and all(isinstance(t, str) and t.endswith('\n') for t in texts)
+    dumps = [(jm.term(v), jm.zlist(list(t[:-1].encode('utf-8')))) for v, t in zip(values, texts)] if ok_shape else []
+    # non-null values come back from rxsci's json.load one per line, in order
+    back, lend = [], []
+    rx.from_([t[:-1] for t in texts] if ok_shape else []).pipe(rjson.load()).subscribe(
+        on_next=back.append, on_error=lambda e: lend.append('error:' + type(e).__name__), on_completed=lambda: lend.append('completed'))
+    want = [v for v in values if v is not None]
+    loads = jm.loads_cases(rng, case['m'])
+    same = len(back) == len(want) and all(type(a) is type(b) and a == b for a, b in zip(back, want))
+    return {'dumps': dumps, 'loads': loads, 'dump_end': end, 'load_end': lend, 'ok_shape': ok_shape, 'roundtrip_ok': same,
+            'n_back': len(back), 'n_want': len(want), 'n_rejected': sum(1 for _, r in loads if r == 'None')}
+
+
 def run_impl(case):
+    if case['kind'] == 'jmodel':
+        return run_jmodel(case)
     import rx
     import rxsci.container.json as rjson
     os.makedirs(WORKDIR, exist_ok=True)
@@ -787,6 +822,15 @@ def run_impl(case):
 def oracle(case, obs):
     if case['kind'] == 'hand':
         return None
+    if case['kind'] == 'jmodel':
+        if 'raised' in obs:
+            return {'sig': 'json:raised', 'what': 'raised %s: %s' % (obs['raised'], obs.get('msg'))}
+        if not obs['ok_shape'] or obs['dump_end'] != ['completed']:
+            return {'sig': 'json:dump-shape', 'what': 'json.dump did not emit one newline-terminated text per object (end %s)' % obs['dump_end']}
+        if not obs['roundtrip_ok'] or obs['load_end'] != ['completed']:
+            return {'sig': 'json:mem-roundtrip', 'what': 'json.load(json.dump(values)): %d of %d non-null values back, equal=%s, end %s'
+                    % (obs['n_back'], obs['n_want'], obs['roundtrip_ok'], obs['load_end'])}
+        return None
     if 'raised' in obs:
         return {'sig': 'json:raised', 'what': 'raised %s: %s' % (obs['raised'], obs.get('msg'))}
     if obs.get('size_at_completion') is not None and obs['size_at_completion'] != obs.get('fsize'):
@@ -829,6 +873,8 @@ def scale_where(case, obs):
 def nontrivial(case, obs):
     if 'raised' in obs or case['kind'] == 'hand':
         return False
+    if case['kind'] == 'jmodel':
+        return True
     if case['kind'] == 'big':
         return len(obs['read_sizes']) >= 2 or obs['max_chunk_chars'] > MIB
     if case['kind'] == 'doc':
@@ -847,6 +893,16 @@ def silent_run(lens_out):
 
 
 def describe(cases, obs):
+    keep = [(c, o) for c, o in zip(cases, obs) if c['kind'] != 'jmodel']
+    jm = [(c, o) for c, o in zip(cases, obs) if c['kind'] == 'jmodel' and 'raised' not in o]
+    d = describe_files([c for c, _ in keep], [o for _, o in keep])
+    d['orjson_model_cases'] = {'cases': len(jm), 'values_dumped': sum(len(o['dumps']) for _, o in jm),
+                               'texts_loaded': sum(len(o['loads']) for _, o in jm),
+                               'texts_rejected_by_orjson': sum(o['n_rejected'] for _, o in jm)}
+    return d
+
+
+def describe_files(cases, obs):
     doc = {'by_comp': {}, 'by_writer': {}, 'by_flavour': {}, 'file_larger_than_one_64KiB_read_chunk_by_comp': {},
            'max_file_size_by_comp': {}, 'max_64KiB_chunks_on_disk': 0, 'raw_stream': 0, 'indented_multi_line_document': 0,
            'harness_written_without_trailing_newline': 0, 'ignore_error': 0,
@@ -952,7 +1008,7 @@ def describe(cases, obs):
 # ---------------------------------------------------------------------------------------------
 def coq_preamble():
     return ('From Coq Require Import List ZArith NArith Bool.\nImport ListNotations.\n'
-            'From RxVerif Require Import Base.Corr Framing.Line Container.JsonLines Container.C19Corr.\n')
+            'From RxVerif Require Import Base.Corr Framing.Line Container.JsonLines Container.Json Container.C19Corr.\n')
 
 
 CTYPE = 'c19case'
@@ -962,6 +1018,8 @@ CHECKER = 'c19_check'
 def coq_term(case, obs):
     if 'raised' in obs:
         return 'CRaised'
+    if case['kind'] == 'jmodel':
+        return 'CJsonModel [%s] [%s]' % ('; '.join('(%s, %s)' % c for c in obs['dumps']), '; '.join('(%s, %s)' % c for c in obs['loads']))
     completed = obs['load_end'] == ['completed']
     if case['kind'] == 'doc':
         return 'CDoc %s %s %s %s %s %s %s %s %s %s' % (
@@ -982,6 +1040,8 @@ def coq_term(case, obs):
 
 
 def coq_model_expr(case):
+    if case['kind'] == 'jmodel':
+        return 'json_print (JObj [([97]%Z, JArr [JInt 1%Z; JNull])])'
     if case['kind'] == 'doc':
         return '(doc_read_sizes 0, doc_read_sizes 70000, z_json_load [([1]%Z, Some 1%N)] 0 false [[1]; []]%Z)'
     if case['kind'] == 'big':
@@ -1041,7 +1101,11 @@ CLAIM = {
             'payloads so that the gzip / zstd file exceeds 64 KiB as well; uncompressed files of exactly k x 64 KiB - 1, + 0, '
             '+ 1 bytes), builtin file, custom open_obj and short-read raw streams; the oracle demands exactly [the object]; '
             'the correspondence recomputes the chunk sizes of file.read(size=-1) (doc_read_sizes; readall over the '
-            'recorded caps) and the delivered objects from the text items that entered json.load (tap).',
+            'recorded caps) and the delivered objects from the text items that entered json.load (tap). '
+            'orjson on the float-free subset is a Coq model (Json.v) with json_parse (json_print v) = Some v, also followed by '
+            'whitespace / the newline, no control byte and no raw newline in json_print v, valid UTF-8; the three composition '
+            'theorems are re-stated with these premises discharged (C19_model_*: only the text codec and the compression stage '
+            'remain premises), and the model is compared with orjson (through rxsci json.dump / json.load) on every run.',
     'note': 'Trusted: Coq kernel+VM; hand-written model of json.py (tied by correspondence only); orjson, CPython codecs, '
             'zlib, zstandard, gzip module (not modelled; hypotheses of the theorem, tested not proved); the taps '
             '(monkey-patching in the harness process); items delivered before a stage error are not modelled; '
